@@ -86,7 +86,7 @@ def run_shard(spec, rec):
         return True
 
     orig_fly = Builder.fly
-    tb.LegacyBuilder.fly = icontract.ensure(consistent, error=Broken)(orig_fly)
+    tb.LegacyBuilder.fly = icontract.ensure(consistent, error=Broken, enabled=True)(orig_fly)
     try:
         base = fg.sample_model_dict()
         rng0 = random.Random(spec['seed'])
